@@ -25,10 +25,25 @@ func ConvertLabelQuery(terms []*v1alpha1.LabelTerm) ([]resource.LabelQueryOption
 			opts = append(opts, resource.NotMatches)
 		}
 
-		switch term.Op { //nolint:exhaustive
-		case v1alpha1.LabelTerm_EQUAL, v1alpha1.LabelTerm_LT, v1alpha1.LabelTerm_LTE, v1alpha1.LabelTerm_LT_NUMERIC, v1alpha1.LabelTerm_LTE_NUMERIC:
-			if len(term.Value) == 0 {
-				return nil, status.Errorf(codes.InvalidArgument, "label query operator %v requires a value", term.Op)
+		// A term which needs a value but carries none never matches (and matches if inverted):
+		// keep exactly that meaning instead of indexing into the empty list.
+		if len(term.Value) == 0 {
+			rawOp, needsValue := map[v1alpha1.LabelTerm_Operation]resource.LabelOp{
+				v1alpha1.LabelTerm_EQUAL:       resource.LabelOpEqual,
+				v1alpha1.LabelTerm_LT:          resource.LabelOpLT,
+				v1alpha1.LabelTerm_LTE:         resource.LabelOpLTE,
+				v1alpha1.LabelTerm_LT_NUMERIC:  resource.LabelOpLTNumeric,
+				v1alpha1.LabelTerm_LTE_NUMERIC: resource.LabelOpLTENumeric,
+			}[term.Op]
+
+			if needsValue {
+				rawTerm := resource.LabelTerm{Key: term.Key, Op: rawOp, Invert: term.Invert}
+
+				labelOpts = append(labelOpts, func(q *resource.LabelQuery) {
+					q.Terms = append(q.Terms, rawTerm)
+				})
+
+				continue
 			}
 		}
 
